@@ -16,6 +16,7 @@ import c01
 
 import autofit as af
 from autofit.mapper.model import AbstractModel
+from autofit.mapper.prior_model.abstract import AbstractPriorModel
 from autofit.mapper.prior.abstract import Prior
 from autofit.mapper.prior_model.prior_model import Model
 from autofit.mapper.prior_model.collection import Collection
@@ -39,7 +40,8 @@ class Flaky(dict):
 
 
 def children(node):
-    return [v for k, v in node.__dict__.items() if k != "id" and not k.startswith("_") and isinstance(v, AbstractModel) and v is not node]
+    # (prior models only: a passed-on ModelInstance is an AbstractModel too, but holds no parameters and answers no queries)
+    return [v for k, v in node.__dict__.items() if k != "id" and not k.startswith("_") and isinstance(v, AbstractPriorModel) and v is not node]
 
 
 def reach(node):
